@@ -471,6 +471,8 @@ impl RbCase {
             Spare(Vec<u8>),
             Set(usize, u8),
             BmExt(Vec<u8>),
+            /// `extend_from_slice` with a slice of this many (untouched, zero) bytes, >= 2^32
+            ExtHuge(usize),
         }
         let e = match t {
             ["truncate", _, n] => E::Truncate(parse_usize(n)?),
@@ -487,6 +489,13 @@ impl RbCase {
                 E::Set(parse_usize(i)?, b as u8)
             }
             ["bmext", _, d] => E::BmExt(unhex(d)?),
+            ["exthuge", _, n] => {
+                let n = parse_usize(n)?;
+                if n < (1 << 32) || n > (1 << 34) {
+                    return None;
+                }
+                E::ExtHuge(n)
+            }
             _ => return None,
         };
         let l = self.live.as_mut().unwrap();
@@ -516,6 +525,18 @@ impl RbCase {
             .map(|_| G::Ok),
             E::Set(i, b) => util::catch(|| buf.as_mut_slice()[*i] = *b).map(|_| G::Ok),
             E::BmExt(d) => util::catch(|| BufMut::extend_from_slice(buf, d)).map(G::Num),
+            E::ExtHuge(n) => {
+                // a slice of `n` untouched zero bytes (never read when the call refuses it)
+                let p = unsafe { libc::mmap(std::ptr::null_mut(), *n, libc::PROT_READ, libc::MAP_PRIVATE | libc::MAP_ANONYMOUS | libc::MAP_NORESERVE, -1, 0) };
+                if p == libc::MAP_FAILED {
+                    Ok(G::Err) // cannot build the slice: nothing to observe (the expected outcome)
+                } else {
+                    let d = unsafe { std::slice::from_raw_parts(p as *const u8, *n) };
+                    let r = util::catch(|| buf.extend_from_slice(d)).map(|r| if r.is_ok() { G::Ok } else { G::Err });
+                    unsafe { libc::munmap(p, *n) };
+                    r
+                }
+            }
         };
         // a rejected call allocated its panic message: the bytes behind the pool may have changed legitimately
         let guard_ok = got.is_err() || l.guard_intact(ps, bs);
@@ -584,6 +605,8 @@ impl RbCase {
                         v.extend_from_slice(&d[..w]);
                         Want::Num(w)
                     }
+                    // more than the capacity: refused, nothing changes
+                    E::ExtHuge(_) => Want::Err,
                 }
             }
             // Without a buffer: the empty vector that cannot grow.
@@ -599,7 +622,7 @@ impl RbCase {
                     }
                 }
                 E::SetLen(n) => if *n > bs { Want::Panic } else { Want::Ok },
-                E::Extend(_) => Want::Err,
+                E::Extend(_) | E::ExtHuge(_) => Want::Err,
                 E::Spare(d) => if d.is_empty() { Want::Ok } else { Want::Panic },
                 E::Set(..) => Want::Panic,
                 E::BmExt(_) => Want::Num(0),
@@ -634,6 +657,7 @@ impl RbCase {
             (E::Set(..), _) => "set",
             (E::BmExt(d), Want::Num(w)) => if *w < d.len() { "bmext-short" } else { "bmext" },
             (E::BmExt(_), _) => "bmext",
+            (E::ExtHuge(_), _) => "extend-huge-refused",
         };
         self.feats.push(tag.into());
         match (&e, &want) {
@@ -886,6 +910,11 @@ impl Case for RbCase {
             3 => {
                 let n = match rng.below(8) { 0 => *rng.pick(&big), 1 => bs, 2 => bs + 1, 3 => len, _ => rng.range(0, bs) };
                 format!("readbuf setlen {h} {n}")
+            }
+            4 if rng.chance(1, 12) => {
+                // a slice of 2^32 + k bytes whose length truncates to something that fits
+                let k = match rng.below(4) { 0 => 0, 1 => spare, 2 => spare + 1, _ => rng.range(0, bs) };
+                format!("readbuf exthuge {h} {}", (1u64 << 32) * rng.range(1, 2) + k as u64)
             }
             4 => {
                 let n = dlen(rng, spare);
